@@ -64,9 +64,13 @@ class Fn:
     (generator: the output list is the local `__out`).
     """
 
-    def __init__(self, node: ast.FunctionDef, state: str, expr, stmt, gen=False, ret_state=True, fuel=None):
+    def __init__(self, node: ast.FunctionDef, state: str, expr, stmt, gen=False, ret_state=True, fuel=None, ret_type=None):
         self.node, self.state, self.expr_hook, self.stmt_hook = node, state, expr, stmt
         self.gen, self.ret_state, self.fuel = gen, ret_state, fuel
+        self.ret_type = ret_type          # Coq type of the returned value: enables `return` inside a loop
+        self.pure = False                 # pure function: `return e` is the bare term e
+        self.extract = {}                 # loop variable -> name of a separate definition for the loop body
+        self.extra_defs = []
         self.n = 0
         self.locals: list[str] = [a.arg for a in node.args.args if a.arg != "self"]
 
@@ -96,6 +100,8 @@ class Fn:
         """term for `return value` (None = fall off the end)"""
         if self.gen:
             return "Ok __out"
+        if self.pure:
+            return value
         if value is None:
             return f"Ok {self.state}" if self.ret_state else "Ok tt"
         return f"Ok ({value}, {self.state})" if self.ret_state else f"Ok {value}"
@@ -137,9 +143,13 @@ class Fn:
             if name not in ("AssertionError", "IndexError", "ValueError", "TypeError", "KeyError", "AttributeError"):
                 bad(s, "raise")
             return f"Raise {name}"
-        if isinstance(s, ast.Return):
-            if loop is not None:
+        if isinstance(s, ast.Return) and loop is not None:
+            if "__ret" not in loop[0] or s.value is None:
                 bad(s, "return inside a loop")
+            binds, term = self.expr(s.value)
+            names_ = [n if n != "__ret" else f"(Some ({term}))" for n in loop[0]]
+            return "\n".join(binds + [f"Ok (true, {self.tup(names_)})"])
+        if isinstance(s, ast.Return):
             if s.value is None:
                 return self.ret()
             binds, term = self.expr(s.value)
@@ -156,6 +166,17 @@ class Fn:
             return self.loop_end(loop)
         if isinstance(s, ast.For):
             return self.for_loop(s, cont)
+        if isinstance(s, ast.Try) and len(s.handlers) == 1 and not s.orelse and not s.finalbody and loop is None \
+                and getattr(s.handlers[0].type, "id", None) == "Exception" and s.handlers[0].name is None:
+            new = [n for n in assigned_names(list(s.body)) if n not in self.locals]
+            carried = [self.state] + [n for n in assigned_names(list(s.body))]
+            before = list(self.locals)
+            body_term = self.block(list(s.body), lambda: f"Ok {self.tup(carried)}")
+            self.locals = list(before)
+            handler = self.block(list(s.handlers[0].body), k)
+            self.locals = before + new
+            return "\n".join([f"match (", body_term, f") with", "| Raise _ => (", handler, ")",
+                              f"| Ok {self.tup(carried)} => (", cont(), ")", "end"])
         bad(s, "statement")
 
     def loop_end(self, loop):
@@ -168,7 +189,12 @@ class Fn:
         if s.orelse and not has_break:
             bad(s, "for/else without break")
         carried = self.carried(body + list(s.orelse))
-        kind = "break" if has_break else "plain"
+        has_ret = any(isinstance(n, ast.Return) for st_ in body for n in ast.walk(st_))
+        if has_ret:
+            if self.ret_type is None or has_break or s.orelse:
+                bad(s, "return inside a loop")
+            carried.append("__ret")
+        kind = "break" if (has_break or has_ret) else "plain"
         # iteration variable(s)
         binds, seq, var_pat, bound = self.loop_iter(s)
         before = list(self.locals)
@@ -176,6 +202,15 @@ class Fn:
         body_term = self.block(body, lambda: self.loop_end((carried, kind)), (carried, kind))
         self.locals = before
         acc = self.fresh("acc")
+        if isinstance(s.target, ast.Name) and s.target.id in self.extract and has_ret:
+            dname, types = self.extract[s.target.id]
+            args = " ".join(f"({n} : {types[n]})" for n in carried if n != "__ret")
+            self.extra_defs.append(
+                f"Definition {dname} {self.extract_params} ({s.target.id} : nat) {args} :=\n"
+                + (f"let __ret := (@None {self.ret_type}) in\n" if "__ret" in carried else "") + body_term + ".\n")
+            call = f"{dname} {self.extract_args} {s.target.id} " + " ".join(n for n in carried if n != "__ret")
+            body_term = call if "__ret" not in carried else \
+                f"match __ret with Some _ => Ok (true, {self.tup(carried)}) | None => {call} end"
         if kind == "plain":
             if seq.startswith("range:"):
                 loop = f"repeat_res {seq[6:]} (fun {acc} => let {self.pat(carried)} := {acc} in\n{body_term}) {self.tup(carried)}"
@@ -183,8 +218,11 @@ class Fn:
                 loop = f"for_res {seq} (fun {var_pat} {acc} => let {self.pat(carried)} := {acc} in\n{body_term}) {self.tup(carried)}"
             out = binds + [f"do {acc} <- {loop};", f"let {self.pat(carried)} := {acc} in"]
             return "\n".join(out) + "\n" + cont()
-        loop = f"for_break {seq} (fun {var_pat} {acc} => let {self.pat(carried)} := {acc} in\n{body_term}) {self.tup(carried)}"
+        init = [n if n != "__ret" else f"(@None {self.ret_type})" for n in carried]
+        loop = f"for_break {seq} (fun {var_pat} {acc} => let {self.pat(carried)} := {acc} in\n{body_term}) {self.tup(init)}"
         out = binds + [f"do {acc} <- {loop};", f"let {self.pat(carried)} := snd {acc} in"]
+        if has_ret:
+            return "\n".join(out + ["match __ret with", f"| Some __r => {self.ret('__r')}", "| None => (", cont(), ")", "end"])
         if s.orelse:
             before = list(self.locals)
             a = cont()
